@@ -2054,6 +2054,17 @@ impl<'a> Parser<'a> {
                 let mut class_decl = self.parse_class_declaration()?;
                 class_decl.decorators = decorators;
                 Some(Box::new(Statement::ClassDeclaration(Box::new(class_decl))))
+            } else if self.check(&TokenKind::Abstract) && self.peek_is(&TokenKind::Class) {
+                // export default abstract class
+                self.advance(); // consume 'abstract'
+                let mut class_decl = self.parse_class_declaration()?;
+                class_decl.abstract_ = true;
+                class_decl.decorators = decorators;
+                Some(Box::new(Statement::ClassDeclaration(Box::new(class_decl))))
+            } else if self.check(&TokenKind::Interface) && self.peek_is_identifier() {
+                // export default interface I {} exports a type only
+                self.parse_interface()?;
+                Some(Box::new(Statement::Empty))
             } else {
                 let expr = self.parse_assignment_expression()?;
                 self.expect_semicolon()?;
